@@ -9,7 +9,9 @@ extern int cqv_arena_live;
 #ifndef CQV_CAP
 #define CQV_CAP 2
 #endif
-#define MAXREQ (2 * CQV_CAP + 1)   /* up to two doublings */
+#ifndef CQV_REQ
+#define CQV_REQ (CQV_CAP + 1)
+#endif
 
 typedef struct { char *name; _Bool has_type, has_rep, has_lt; int type, rep, lt_id; int32_t tl, nc, scale, precision, field_id; } snap_t;
 static snap_t snap_of(const parquet_schema_element_t *e) {
@@ -62,15 +64,17 @@ static void check_kept(void) {
 
 void h_grow(void) {
   mk();
-  int32_t required = nondet_i32();
-  __CPROVER_assume(required >= 0 && required <= MAXREQ);
-  /* one call site per concrete request: keeps the new sizes constant for CBMC's realloc copy */
-  carquet_status_t st = CARQUET_OK;
-  for (int32_t rq = 0; rq <= MAXREQ; rq++) { if (rq == required) st = schema_ensure_capacity(s, rq); }
+  /* the request is a job constant (CQV_REQ): keeps the new sizes constant for CBMC's realloc copy */
+  const int32_t required = CQV_REQ;
+  carquet_status_t st = schema_ensure_capacity(s, required);
   if (st == CARQUET_OK) {
     __CPROVER_assert(s->capacity >= required && s->capacity >= CQV_CAP, "capacity covers the request and never shrinks");
     if (s->capacity > CQV_CAP) CQV_CANARY("grow: capacity grew");
-    if (s->capacity >= 4 * CQV_CAP) CQV_CANARY("grow: two doublings");
+#if CQV_REQ > 2 * CQV_CAP
+    __CPROVER_assert(s->capacity == 4 * CQV_CAP, "two doublings");
+#else
+    __CPROVER_assert(s->capacity == 2 * CQV_CAP, "one doubling");
+#endif
   } else {
     CQV_CANARY("grow: allocation failure reported");
     __CPROVER_assert(st == CARQUET_ERROR_OUT_OF_MEMORY, "failure is OUT_OF_MEMORY");
